@@ -32,6 +32,10 @@ OLDER variants.
   save + load and any further insertions a search returns exactly the linear scan, the new
   signatures included (`search_after_insert_into_loaded`), and the same after a sparse save +
   load + insertions (`search_after_insert_into_sparse_loaded`);
+* older index versions: a version-3 load ESTABLISHES the bound (`cover_after_load_v3`, also for
+  sparse saves: `cover_after_sparse_load_v3`), never fails (`load_v3_total`), and is searchable;
+  versions 1-2 leave every node without a bound (`legacy_load_records_no_bound`, known finding
+  C13.3) unless the loader runs the fill (`cover_after_load_legacy`);
 * kernel-checked counterexamples: the 0 -> 1 clamp (D13, deliberate, `clamp_is_needed`), and
   the three older variants (`older_rebuild_counterexample`, `older_add_node_counterexample`,
   `older_unload_counterexample`), each next to the same input under the current variant.
@@ -41,6 +45,8 @@ import SmVerif.Lemmas.SBTRebuild
 import SmVerif.Lemmas.SBTLoadInsert
 import SmVerif.Lemmas.SBTSearch
 import SmVerif.Lemmas.SBTFinal
+import SmVerif.Lemmas.SBTV3
+import SmVerif.Lemmas.SBTLegacy
 import SmVerif.Lemmas.Nodegraph
 import SmVerif.Model.Generated
 
@@ -54,7 +60,8 @@ open Sm Sm.SBT Sm.NG
 places; the full statements below are about exactly this variant (if an edit brings an older
 shape back, this theorem stops checking) -/
 theorem current_source_variant :
-    Sm.Gen.sbtRebuildFixed = true ∧ Sm.Gen.sbtAddRebuildsMissing = true ∧ Sm.Gen.sbtUnloadKeepsDirty = true := by
+    Sm.Gen.sbtRebuildFixed = true ∧ Sm.Gen.sbtAddRebuildsMissing = true ∧ Sm.Gen.sbtUnloadKeepsDirty = true ∧
+    Sm.Gen.sbtCoarseSubjOne = true ∧ Sm.Gen.sbtSelectEmptyOk = true := by
   decide
 
 /-- `byte_size = tablesize / 8 + 1`, 4-byte blocks, `with_tables` starts at
@@ -148,6 +155,10 @@ theorem bytes_roundtrip_constructor {ts n k : Nat} (h1 : 1 ≤ ts) (mins : List 
       NG.load bytes = .ok { (withTables ts n k).addMany mins with unique := 0 } :=
   NG.withTables_addMany_roundtrip h1 mins hk hn hts ho
 
+/-- two insertions into a `d = 2` tree with a single table of 3 bits (used in an example below) -/
+def insAll0 (ls : List Leaf) : Except SBT.Err Tree :=
+  ls.foldlM (fun t l => addNode true true t l) (Tree.new 2 [3])
+
 /-! ## 3. the Cover invariant under insertion -/
 
 /-- **cover_insert**: on a tree built by insertions (`InsInv`: well-shaped filters, `Cover`,
@@ -164,6 +175,50 @@ children per node and a factory of non-empty tables, every internal node above a
 'present' for all the leaf's hashes and records `min_n_below ≤ max 1 |leaf|` -/
 theorem cover_reachable {d : Nat} {sizes : List Nat} (hd : 2 ≤ d) (hs : SizesOK sizes) {t : Tree}
     (h : Reach d sizes t) : Cover t := (reach_inv hd hs h).1.2.1
+
+/-- **the two halves are one model**: every internal node of the SBT model holds a `Nodegraph`
+(`NG`: the prime-sized bit tables of nodegraph.rs with its `count` / `get` / `update`), not an
+abstract hash set; `Holds` is stated with `NG.get`, and the insertion/repair proofs go through the
+Bloom laws of section 2 (`addMany_present`, `addMany_monotone`, `update_no_false_negative`) under
+`DataOK` (every filter has the factory's table sizes).  Spelled out for the factory
+`GraphFactory(1, size, n_tables)` of any `size ≥ 1` and any number of tables: after ANY sequence of
+insertions every ancestor of every leaf is a present node whose REAL filter answers `get = 1` for
+every hash of the leaf, and records `min_n_below ≤ max 1 |leaf|`.  False positives are allowed
+(nothing is claimed for hashes not stored beneath the node) -/
+theorem cover_reachable_bloom {d ts n : Nat} (hd : 2 ≤ d) (h1 : 1 ≤ ts) {t : Tree}
+    (h : Reach d (tableSizes ts n) t) :
+    ∀ p l, t.leaves.get? p = some l → ∀ a ∈ ancestors d p,
+      ∃ nd, t.nodes.get? a = some nd ∧ (nd.data (tableSizes ts n)).sizes = tableSizes ts n ∧
+        (∀ x ∈ l.hashes, (nd.data (tableSizes ts n)).get x = 1) ∧
+        ∃ m, nd.minN = some m ∧ m ≤ max 1 l.hashes.length := by
+  have hsz : SizesOK (tableSizes ts n) := fun s hs => by have := (NG.tableSizes_odd h1 s hs).2; omega
+  obtain ⟨⟨hb, hc, hsh⟩, htd, hts, _⟩ := reach_inv hd hsz h
+  intro p l hl a ha
+  rcases hsh with he | ⟨m, M, hsp⟩
+  · rw [he.2.1] at hl; cases hl
+  · rw [← htd] at ha
+    obtain ⟨_, nd, hnd, hh, hm⟩ := hsp.cover_some hc hl ha
+    rw [hts] at hh
+    have hd' := data_ok hsz (by rw [← hts]; exact hb.nodesOK a nd hnd)
+    exact ⟨nd, hnd, hd'.2, fun x hx => (NG.has_eq_true_iff_get _ x).mp (hh x hx), hm⟩
+
+/-- the result of a search as a list of signature ids (`none` when it raised) -/
+def foundIds (r : Tree × Except SBT.Err (List Leaf)) : Option (List Nat) :=
+  match r.2 with | .ok ls => some (ls.map (·.id)) | .error _ => none
+
+/-- the example tree: `d = 2`, ONE table of 3 bits, signatures `{1}` (id 0) and `{2}` (id 1) -/
+def fpTree : Tree := match insAll0 [⟨0, [1]⟩, ⟨1, [2]⟩] with | .ok t => t | .error _ => default
+
+/-- a concrete false positive that costs a visit and nothing else: the root's filter answers
+'present' for 4 (4 mod 3 = 1) although no stored signature holds 4; a search for `{4}` descends past
+the root and returns exactly what a linear scan returns (nothing), a search for `{1}` returns
+signature 0 -/
+theorem false_positive_costs_only_a_visit :
+    (match fpTree.nodes.get? 0 with | some nd => (nd.data fpTree.sizes).get 4 | none => 0) = 1 ∧
+    fpTree.leaves.map (fun kv => kv.2.hashes) = [[2], [1]] ∧
+    foundIds (search true true fpTree ⟨false, 1, [4], false, none⟩) = some [] ∧
+    foundIds (search true true fpTree ⟨false, 1, [1], false, none⟩) = some [0] := by
+  decide +kernel
 
 /-- the factory of `GraphFactory(1, size, n_tables)` qualifies for every `size ≥ 1` -/
 theorem factory_sizes_ok {ts n : Nat} (h1 : 1 ≤ ts) : SizesOK (tableSizes ts n) := fun s hs =>
@@ -328,6 +383,16 @@ theorem search_after_insert_into_sparse_loaded {d : Nat} {sizes : List Nat} (hd 
       (∀ p0 l0, t.leaves.get? p0 = some l0 → ∃ p', t3.leaves.get? p' = some l0) :=
   SBT.search_after_insert_into_sparse_loaded hd hsz hr omitted cm hv hload hadd ls hins fixed' q
 
+/-- the same for every score type (Jaccard, containment, max containment) and for a query coarser
+than the tree (`cut = some max_hash`: leaves are downsampled before scoring, internal nodes count
+as size 1): pruning by the node score never loses a matching signature, false positives of the
+filters only cost visits -/
+theorem search_is_linear_scan_all_kinds {fixed keep : Bool} {t : Tree} (h : Searchable keep t) (c m : Bool) (thr : Nat)
+    (mins : List Nat) (cut : Option Nat) :
+    ∃ ls, (search fixed keep t ⟨c, thr, mins, m, cut⟩).2 = .ok ls ∧
+      ∀ l, l ∈ ls ↔ (leafPasses ⟨c, thr, mins, m, cut⟩ l = true ∧ ∃ p, t.leaves.get? p = some l) :=
+  search_exact_all_kinds h c m thr mins cut
+
 /-- searches can be repeated: `Searchable` is what a search needs and what it leaves behind -/
 theorem searchable_after_search {fixed keep : Bool} {t : Tree} (h : Searchable keep t) (q : Query) :
     Searchable keep (search fixed keep t q).1 := (search_exact (fixed := fixed) (keep := keep) h q).1
@@ -340,6 +405,100 @@ theorem clamp_is_needed :
       t.leaves.get? 1 = some l ∧ leafPasses q l = true ∧
       ∀ keep, (search false keep t q).2 = .ok [] ∧ (search true keep t q).2 = .ok [] :=
   search_incomplete_minN_zero
+
+/-! ## 4b. older index versions -/
+
+/-- **cover_after_load_v3**: index version 3 stores no `min_n_below`; `_load_v3` runs
+`_fill_min_n_below()`, which ESTABLISHES the bound (not merely preserves it): after a full save of
+an insertion-built tree and a version-3 load, `Cover` holds.  (`SmallLeaves`: every sketch has
+fewer than `sys.maxsize` hashes — always true in CPython; the model's lists are unbounded and
+`v3_needs_bounded_sketches` shows the hypothesis cannot be dropped there.) -/
+theorem cover_after_load_v3 {d : Nat} {sizes : List Nat} (hd : 2 ≤ d) (hsz : SizesOK sizes) {t t' : Tree}
+    (hr : Reach d sizes t) (hsm : SmallLeaves t) (cm : Option Nat) {fixed : Bool}
+    (h : load fixed (save t (fun _ => false)) 3 cm = .ok t') :
+    Base t' ∧ Cover t' ∧ t'.leaves = t.leaves ∧ t'.missing = [] := by
+  obtain ⟨h1, h2, h3, _, _, h6, _⟩ := SBT.cover_after_load_v3 hd hsz hr hsm cm h
+  exact ⟨h1, h2, h3, h6⟩
+
+/-- the version-3 load of a non-empty insertion-built tree never fails (the `_fill_up` queue
+discipline: no assertion, enough fuel) -/
+theorem load_v3_total {d : Nat} {sizes : List Nat} (hd : 2 ≤ d) (hsz : SizesOK sizes) {t : Tree}
+    (hr : Reach d sizes t) (hne : t.leaves ≠ []) (cm : Option Nat) (fixed : Bool) :
+    ∃ t', load fixed (save t (fun _ => false)) 3 cm = .ok t' := SBT.load_v3_total hd hsz hr hne cm fixed
+
+/-- ... and for a SPARSE version-3 save (ANY omitted subset): `_fill_up` rebuilds every missing
+parent on the way up and the result is covered, every listed node present again -/
+theorem cover_after_sparse_load_v3 {d : Nat} {sizes : List Nat} (hd : 2 ≤ d) (hsz : SizesOK sizes) {t t' : Tree}
+    (hr : Reach d sizes t) (hsm : SmallLeaves t) (omitted : Nat → Bool) (cm : Option Nat)
+    (h : load true (save t omitted) 3 cm = .ok t') :
+    Base t' ∧ Cover t' ∧ t'.leaves = t.leaves ∧ AllPresent t' := by
+  obtain ⟨h1, h2, h3, _, _, h6, _⟩ := SBT.cover_after_sparse_load_v3 hd hsz hr hsm omitted cm h
+  exact ⟨h1, h2, h3, h6⟩
+
+theorem load_v3_sparse_total {d : Nat} {sizes : List Nat} (hd : 2 ≤ d) (hsz : SizesOK sizes) {t : Tree}
+    (hr : Reach d sizes t) (hsm : SmallLeaves t) (hne : t.leaves ≠ []) (omitted : Nat → Bool) (cm : Option Nat) :
+    ∃ t', load true (save t omitted) 3 cm = .ok t' := SBT.load_v3_sparse_total hd hsz hr hsm hne omitted cm
+
+/-- after a version-3 load (full or sparse) a search returns exactly the linear scan -/
+theorem search_after_load_v3 {d : Nat} {sizes : List Nat} (hd : 2 ≤ d) (hsz : SizesOK sizes) {t t' : Tree}
+    (hr : Reach d sizes t) (hsm : SmallLeaves t) (omitted : Nat → Bool) (cm : Option Nat)
+    (h : load true (save t omitted) 3 cm = .ok t') (fixed' keep : Bool) (q : Query) :
+    ∃ ls, (search fixed' keep t' q).2 = .ok ls ∧
+      ∀ l, l ∈ ls ↔ (leafPasses q l = true ∧ ∃ p, t.leaves.get? p = some l) := by
+  obtain ⟨_, _, h3⟩ := SBT.search_after_sparse_load_v3 hd hsz hr hsm omitted cm h fixed' keep q
+  exact h3
+
+/-- in the model (unbounded lists) the bound on sketch sizes is needed: with four sketches of
+`sys.maxsize` hashes the fill never re-queues an inner node and the root stays without a value -/
+theorem v3_needs_bounded_sketches :
+    ∃ t : Tree, Reach 2 [3] t ∧ ¬ SmallLeaves t ∧ ∀ (fixed : Bool) (cm : Option Nat),
+      ∃ t', load fixed (save t (fun _ => false)) 3 cm = .ok t' ∧ ¬ Cover t' := by
+  obtain ⟨t, h1, h2, h3⟩ := cover_after_load_v3_needs_small
+  exact ⟨t, h1, h2, fun f c => by obtain ⟨t', a, b, _⟩ := h3 f c; exact ⟨t', a, b⟩⟩
+
+/-- regression (D4 again, through `_fill_up`): with the OLDER `_rebuild_node` a sparse version-3
+load already broke `Cover` while loading -/
+theorem older_rebuild_v3_counterexample :
+    ∃ t t', Reach 2 [3] t ∧ SmallLeaves t ∧ load false (save t (fun p => p == 0)) 3 none = .ok t' ∧ ¬ Cover t' :=
+  sparse_load_v3_shipped_cex
+
+/-
+FULL STATEMENT (false for the source as it is, known finding C13.3): Cover holds after loading an
+index of version 1 or 2.  `_load_v1` / `_load_v2` never call `_fill_min_n_below()` and legacy
+files carry no metadata, so no internal node records any size bound (and `search` raises).
+`legacy_load_records_no_bound` is the model's statement of the defect, `cover_after_load_legacy`
+the theorem for the loaders with the missing call added (candidate patch C13.3); the translator
+reads which of the two the source has (`Sm.Gen.sbtLegacyFillsMin`) and the driver follows it.
+-/
+/-- **C13.3**: a legacy load leaves every internal node without `min_n_below` ... -/
+theorem legacy_load_records_no_bound {fixed : Bool} {im : Image} {cm : Option Nat} {t' : Tree}
+    (h : loadLegacy fixed false im cm = .ok t') : ∀ p n, t'.nodes.get? p = some n → n.minN = none :=
+  loadLegacy_nofill_minN h
+
+/-- the three-signature tree of the corpus case: after a legacy load `Cover` fails, after an
+explicit `_fill_min_n_below()` it holds -/
+def legacyEx (fills : Bool) : Except SBT.Err Tree := do
+  let t ← (List.foldlM (fun t l => addNode true true t l) (Tree.new 2 [11, 7]) [⟨0, [1, 2]⟩, ⟨1, [3]⟩, ⟨2, [4, 5, 6]⟩])
+  loadLegacy true fills (save t (fun _ => false)) none
+
+/-- ... hence `Cover` fails on it (kernel-checked), and holds once the fill is run -/
+theorem legacy_load_counterexample :
+    (match legacyEx false with | .ok t => !coverB t | .error _ => false) = true ∧
+    (match legacyEx false with | .ok t => (match fillMinNBelow true t with | .ok t2 => coverB t2 | .error _ => false) | .error _ => false) = true ∧
+    (match legacyEx true with | .ok t => coverB t | .error _ => false) = true := by
+  decide +kernel
+
+/-- **legacy loaders with the fill** (candidate patch C13.3): `Cover` after a version-1/2 load of a
+fully saved insertion-built tree, whenever the factory re-derived from the root's filter file
+(first table size rounded to the hundred) is the tree's factory -/
+theorem cover_after_load_legacy {d : Nat} {sizes : List Nat} (hd : 2 ≤ d) (hsz : SizesOK sizes) {t t' : Tree}
+    (hr : Reach d sizes t) (hsm : SmallLeaves t) (hz : LegacySizesOK t.sizes) (cm : Option Nat) {fixed : Bool}
+    (h : loadLegacy fixed true (save t (fun _ => false)) cm = .ok t') :
+    Base t' ∧ Cover t' ∧ t'.leaves = t.leaves := SBT.cover_after_load_legacy hd hsz hr hsm hz cm h
+
+/-- the default factory of `sourmash index` (`GraphFactory(1, 1e5, 4)`) and the 1000-bit one survive
+the rounding -/
+example : LegacySizesOK (tableSizes 1000 4) := ⟨997, [991, 983, 977], by decide, by decide⟩
 
 /-! ## 5. the one place where the code deliberately departs from the literal statement -/
 
@@ -449,7 +608,7 @@ def d24 (fixed pre keep : Bool) : Except SBT.Err (Tree × Tree) := do
   let t ← insAll fixed pre (Tree.new 2 [11, 7]) [⟨0, [1]⟩, ⟨1, [2]⟩]
   let t ← load fixed (save t (fun _ => false)) 6 none
   let t ← addNode fixed pre t ⟨2, [3]⟩
-  pure (t, (search fixed keep t ⟨false, 100, [3]⟩).1)
+  pure (t, (search fixed keep t ⟨false, 100, [3], false, none⟩).1)
 
 def found (r : Tree × Except SBT.Err (List Leaf)) (i : Nat) : Bool :=
   match r.2 with | .ok ls => ls.any (fun l => l.id == i) | .error _ => false
@@ -459,9 +618,9 @@ was lost by the search (the updated filters of the loaded ancestors were dropped
 search no longer found the new signature — whatever the other two variants ... -/
 theorem older_unload_counterexample (fixed pre : Bool) :
     ∃ t t', d24 fixed pre false = .ok (t, t') ∧ Cover t ∧ ¬ Cover t' ∧
-      found (search fixed false t' ⟨false, 100, [3]⟩) 2 = false := by
+      found (search fixed false t' ⟨false, 100, [3], false, none⟩) 2 = false := by
   have h : ∀ f p, (match d24 f p false with
-      | .ok (t, t') => coverB t && !coverB t' && !found (search f false t' ⟨false, 100, [3]⟩) 2
+      | .ok (t, t') => coverB t && !coverB t' && !found (search f false t' ⟨false, 100, [3], false, none⟩) 2
       | .error _ => false) = true := by decide +kernel
   have hf := h fixed pre
   cases hd : d24 fixed pre false with
@@ -476,9 +635,9 @@ theorem older_unload_counterexample (fixed pre : Bool) :
 `search_after_insert_into_loaded`) -/
 theorem current_unload_example :
     ∃ t t', d24 true true true = .ok (t, t') ∧ Cover t ∧ Cover t' ∧
-      found (search true true t' ⟨false, 100, [3]⟩) 2 = true := by
+      found (search true true t' ⟨false, 100, [3], false, none⟩) 2 = true := by
   have h : (match d24 true true true with
-      | .ok (t, t') => coverB t && coverB t' && found (search true true t' ⟨false, 100, [3]⟩) 2
+      | .ok (t, t') => coverB t && coverB t' && found (search true true t' ⟨false, 100, [3], false, none⟩) 2
       | .error _ => false) = true := by decide +kernel
   cases hd : d24 true true true with
   | error e => rw [hd] at h; cases h
